@@ -14,3 +14,4 @@ import NakenVerif.Props.C05
 import NakenVerif.Props.C03
 import NakenVerif.Props.C13
 import NakenVerif.Props.C18
+import NakenVerif.Props.C09
